@@ -648,7 +648,8 @@ func TestCheck(t *testing.T) {
 		First       string `json:"first"`
 		FirstDenied bool   `json:"first_denied"`
 		// required-only cases
-		RequiredOnly bool `json:"required_only"`
+		RequiredOnly  bool `json:"required_only"`
+		InterfaceOnly bool `json:"interface_only"`
 	}
 	var rin *replayIn
 	if run.Replay != "" {
@@ -787,6 +788,9 @@ func TestCheck(t *testing.T) {
 			}
 		}
 	}
+	if rin == nil || rin.InterfaceOnly {
+		interfaceOnly(t, run, rin != nil)
+	}
 	if rin == nil {
 		requiredOnly(t, run, "", "", "")
 	} else if rin.RequiredOnly && len(rin.Deny) == 1 {
@@ -806,6 +810,75 @@ func TestCheck(t *testing.T) {
 // field. Nothing selected below the denied coordinate may appear in any frame.
 // Generated: first sibling x denied object field with a nested @defer x outer
 // fragment deferred or not x mode.
+// interfaceOnly: the rule exists on the INTERFACE-level coordinate only
+// (Media.title; Clip.title and Post.title carry none) and is denied. Wherever the
+// operation selects title on the interface level - alone, before or after a
+// type-conditioned selection of the same field under the same response key - the
+// position is null for every runtime type and the denial is reported. Judged
+// without the reference executor (whose denial is per runtime type): no feed
+// item may carry a title.
+func interfaceOnly(t *testing.T, run *vk.Run, replaying bool) {
+	if !replaying && run.Shard() != 0 {
+		return
+	}
+	abs := fedlab.SAbs()
+	u := fedlab.SAbsUniverse(abs)
+	l := fedlab.ByType(abs, 2, func(r fedlab.FieldRef) int {
+		if r.Type == "Book" || r.Field == "search" {
+			return 1
+		}
+		return 0
+	}, "base2")
+	lab, err := fedlab.NewLab(l, u, fedlab.LabOptions{Fields: plan.FieldConfigurations{{TypeName: "Media", FieldName: "title", HasAuthorizationRule: true}}})
+	if err != nil {
+		t.Fatalf("lab: %v", err)
+	}
+	defer lab.Close()
+	frags := []string{`... on Clip { title }`, `... on Post { title }`, `... on Clip { title secs }`, `... on Clip { title } ... on Post { title }`}
+	var ops []string
+	ops = append(ops, `{ feed { title } }`, `{ feed { __typename title by { id } } }`)
+	for _, fr := range frags {
+		ops = append(ops, `{ feed { __typename `+fr+` title } }`, `{ feed { __typename title `+fr+` } }`, `{ feed { `+fr+` title __typename } }`)
+	}
+	for _, q := range ops {
+		for _, mode := range []string{"post", "pre", "both"} {
+			// the DECISION is closed under the interface relation (the post-fetch
+			// authorizer is asked about the runtime type's coordinate); only the rule
+			// declaration exists on the interface alone
+			az := &authz{deny: map[string]bool{"Media.title": true, "Clip.title": true, "Post.title": true}}
+			run.Eval(1)
+			run.Count("interface_only_cases", 1)
+			out, _, err := lab.Exec(q, "", nil, authOptions(az, mode)...)
+			why := ""
+			if err != nil {
+				why = "Execute returned an error: " + err.Error()
+			} else if m, derr := refexec.DecodeObject(out); derr != nil {
+				why = "response is not JSON: " + string(out)
+			} else {
+				data, _ := m["data"].(map[string]any)
+				feed, _ := data["feed"].([]any)
+				for i, it := range feed {
+					if o, ok := it.(map[string]any); ok && o["title"] != nil {
+						why = fmt.Sprintf("feed[%d].title = %v although Media.title is denied", i, o["title"])
+						break
+					}
+				}
+				if why == "" && feed != nil && m["errors"] == nil {
+					why = "no error reported for the denied position"
+				}
+			}
+			if run.Outcome("ifaceonly|" + q + "|" + mode + "|" + why) {
+				run.Sample("S-abs/interface-only/"+mode, map[string]any{"operation": q, "deny": "Media.title", "result": string(out)})
+			}
+			if why != "" {
+				run.Violate(vk.Violation{Clause: "a response never contains a non-null value at a position whose field coordinate was denied", Site: "interface-level coordinate, rule on the interface only", Class: mode + " / Media.title",
+					Detail: fmt.Sprintf("layout %s\noperation %s\nprotected and denied Media.title (no rule on Clip.title / Post.title)\nmode %s\n%s\nresponse %s", l.String(), q, mode, why, out),
+					Input:  map[string]any{"family": "S-abs", "interface_only": true, "op": q, "mode": mode, "deny": []string{"Media.title"}}})
+			}
+		}
+	}
+}
+
 // requiredOnly: a protected coordinate that the client does NOT select - it is
 // fetched only because a field of another subgraph @requires it (S-req: weight,
 // price, dims feed shipping / volume / summary; S-nreq: zip behind an entity
